@@ -197,6 +197,78 @@ func (d *Disk) walk(p string, follow bool, depth int) (*inode, syscall.Errno) {
 	return cur, 0
 }
 
+// canon returns the real (symlink-free) path of an existing directory path.
+func (d *Disk) canon(p string, depth int) (string, syscall.Errno) {
+	if depth > 40 {
+		return "", syscall.ELOOP
+	}
+	p = d.abs(p)
+	if p == "/" {
+		return "/", 0
+	}
+	cur := d.root
+	real := ""
+	parts := strings.Split(p[1:], "/")
+	for i, name := range parts {
+		if cur.kind != kDir {
+			return "", syscall.ENOTDIR
+		}
+		next, ok := cur.children[name]
+		if !ok {
+			return "", syscall.ENOENT
+		}
+		if next.kind == kSymlink {
+			target := next.target
+			if !strings.HasPrefix(target, "/") {
+				target = real + "/" + target
+			}
+			if rest := strings.Join(parts[i+1:], "/"); rest != "" {
+				target += "/" + rest
+			}
+			return d.canon(path.Clean(target), depth+1)
+		}
+		cur = next
+		real += "/" + name
+	}
+	return real, 0
+}
+
+// createTarget resolves the path at which an O_CREAT open of p creates or opens a
+// file: symlinks in the final component are followed even when they dangle.
+func (d *Disk) createTarget(p string) (*inode, string, syscall.Errno) {
+	p = d.abs(p)
+	for depth := 0; ; depth++ {
+		if depth > 40 {
+			return nil, "", syscall.ELOOP
+		}
+		if p == "/" {
+			return nil, "", syscall.EISDIR
+		}
+		dir, base := path.Split(p)
+		rdir, e := d.canon(path.Clean(dir), 0)
+		if e != 0 {
+			return nil, "", e
+		}
+		parent, e2 := d.walk(rdir, true, 0)
+		if e2 != 0 {
+			return nil, "", e2
+		}
+		if parent.kind != kDir {
+			return nil, "", syscall.ENOTDIR
+		}
+		n, ok := parent.children[base]
+		if ok && n.kind == kSymlink {
+			if strings.HasPrefix(n.target, "/") {
+				p = path.Clean(n.target)
+			} else {
+				p = path.Clean(rdir + "/" + n.target)
+			}
+			continue
+		}
+		return parent, base, 0
+	}
+}
+
 func (d *Disk) parentOf(p string) (*inode, string, syscall.Errno) {
 	p = d.abs(p)
 	if p == "/" {
@@ -746,19 +818,11 @@ func WriteFile(p string, data []byte, perm os.FileMode) error {
 }
 
 func (d *Disk) writeLocked(p string, data []byte, perm os.FileMode, faults bool) (error, string, []byte) {
-	parent, base, e := d.parentOf(p)
+	parent, base, e := d.createTarget(p)
 	if e != 0 {
 		return &os.PathError{Op: "open", Path: p, Err: e}, "", nil
 	}
 	n, exists := parent.children[base]
-	if exists && n.kind == kSymlink {
-		t, e2 := d.walk(p, true, 0)
-		if e2 != 0 {
-			// dangling symlink: create the target (rare; keep simple: report ENOENT)
-			return &os.PathError{Op: "open", Path: p, Err: e2}, "", nil
-		}
-		n = t
-	}
 	if exists && n.kind == kDir {
 		return &os.PathError{Op: "open", Path: p, Err: syscall.EISDIR}, "", nil
 	}
